@@ -251,6 +251,7 @@ func genCacoBuild(repo string) (string, error) {
 		{"loader", "registerOuts", "loader_registerOuts"},
 		{"loader", "readBuildFile", "loader_readBuildFile"},
 		{"", "loadNodes", "loadNodes"},
+		{"", "newLoader", "newLoader"},
 		{"loadTracer", "push", "tracer_push"},
 		{"loadTracer", "pop", "tracer_pop"},
 		{"", "readBuildFile", "readBuildFile"},
@@ -283,5 +284,204 @@ func genCacoBuild(repo string) (string, error) {
 	} {
 		emitSkeleton(&b, f.as, p.cacoSkeleton(p.funcDecl(f.recv, f.name)))
 	}
+
+	// Lifetimes (C10, round 3): where the per-Build state is created and what
+	// a Builder holds across Build calls.
+	p.emitLifetimes(&b)
 	return b.String(), nil
+}
+
+// ctxSite is one place where a buildContext value (the holder of the memo
+// ctx.built and of the cache handle) is made.
+type ctxSite struct{ fn, path, bind, built string }
+
+// emitLifetimes writes:
+//   - memo_sites: every composite literal of type buildContext in the
+//     package: (function, enclosing control statements from the function body
+//     down to the literal - "" when it is a statement of the body itself -,
+//     how the value is bound, the text of its "built" field);
+//   - built_stores: every assignment whose left side is a field selector
+//     ".built" (replacing the memo map of an existing context);
+//   - build_nodes_calls: (enclosing statements, first argument) of every
+//     call of buildNodes inside Builder.Build;
+//   - build_ctx_rebinds: assignments to the bound variable after its
+//     definition inside Builder.Build;
+//   - layouts of the structs that outlive a Build call or are shared by its
+//     nodes (Builder, env, buildOpts, dockerOpts, buildContext, loader,
+//     loadTracer, buildCache) and the package-level variables.
+func (p *pkg) emitLifetimes(b *strings.Builder) {
+	var sites []ctxSite
+	var stores, calls, rebinds, envWrites, loadedStores []string
+	for _, fd := range p.allFuncs() {
+		if fd.Body == nil {
+			continue
+		}
+		fname := fd.Name.Name
+		if r := recvName(fd); r != "" {
+			fname = r + "." + fname
+		}
+		var stack []ast.Node
+		path := func() string {
+			var parts []string
+			for _, n := range stack {
+				switch s := n.(type) {
+				case *ast.IfStmt:
+					parts = append(parts, "if "+p.src(s.Cond))
+				case *ast.ForStmt:
+					parts = append(parts, "for")
+				case *ast.RangeStmt:
+					parts = append(parts, "range "+p.src(s.X))
+				case *ast.SwitchStmt, *ast.TypeSwitchStmt, *ast.SelectStmt:
+					parts = append(parts, "switch")
+				case *ast.FuncLit:
+					parts = append(parts, "func literal")
+				case *ast.GoStmt:
+					parts = append(parts, "go")
+				case *ast.DeferStmt:
+					parts = append(parts, "defer")
+				}
+			}
+			return strings.Join(parts, " > ")
+		}
+		bindOf := func(lit ast.Node) string {
+			// the nearest enclosing statement decides how the value is bound
+			for i := len(stack) - 1; i >= 0; i-- {
+				switch s := stack[i].(type) {
+				case *ast.AssignStmt:
+					if len(s.Lhs) == 1 && len(s.Rhs) == 1 {
+						inner := s.Rhs[0]
+						if u, ok := inner.(*ast.UnaryExpr); ok && u.Op == token.AND {
+							inner = u.X
+						}
+						if inner == lit {
+							if id, ok := s.Lhs[0].(*ast.Ident); ok && s.Tok == token.DEFINE {
+								return "local:" + id.Name
+							}
+							return "store:" + p.src(s.Lhs[0]) + " " + s.Tok.String()
+						}
+					}
+					return "in:" + p.src(s)
+				case *ast.ReturnStmt:
+					return "return"
+				case *ast.ExprStmt:
+					return "in:" + p.src(s)
+				case *ast.DeclStmt:
+					return "in:" + p.src(s)
+				case *ast.ValueSpec:
+					return "in:" + p.src(s)
+				}
+			}
+			return "?"
+		}
+		var boundVar string
+		var boundEnd token.Pos
+		ast.Inspect(fd.Body, func(n ast.Node) bool {
+			if n == nil {
+				stack = stack[:len(stack)-1]
+				return true
+			}
+			switch x := n.(type) {
+			case *ast.CompositeLit:
+				if typeName(x.Type) == "buildContext" {
+					site := ctxSite{fn: fname, path: path(), bind: bindOf(x)}
+					for _, e := range x.Elts {
+						if kv, ok := e.(*ast.KeyValueExpr); ok {
+							if id, ok := kv.Key.(*ast.Ident); ok && id.Name == "built" {
+								site.built = p.src(kv.Value)
+							}
+						}
+					}
+					sites = append(sites, site)
+					if fname == "Builder.Build" && strings.HasPrefix(site.bind, "local:") {
+						boundVar = strings.TrimPrefix(site.bind, "local:")
+						boundEnd = x.End()
+					}
+				}
+			case *ast.AssignStmt:
+				for _, l := range x.Lhs {
+					// writes to the Builder's env: env.f = / env.f[k] = / b.env.f = / l.env.f = / e.f = (methods of env)
+					target := l
+					if ix, ok := target.(*ast.IndexExpr); ok {
+						target = ix.X
+						if sel, ok := ix.X.(*ast.SelectorExpr); ok && sel.Sel.Name == "loaded" {
+							loadedStores = append(loadedStores, fmt.Sprintf("(%s, %s)", coqStr(fname), coqStr(p.src(x))))
+						}
+					}
+					if sel, ok := target.(*ast.SelectorExpr); ok {
+						base := p.src(sel.X)
+						if base == "env" || base == "b.env" || base == "l.env" || base == "fs.env" ||
+							(base == "e" && recvName(fd) == "env") {
+							envWrites = append(envWrites, fmt.Sprintf("(%s, %s)", coqStr(fname), coqStr(p.src(target))))
+						}
+					}
+					if sel, ok := l.(*ast.SelectorExpr); ok && sel.Sel.Name == "built" {
+						stores = append(stores, fmt.Sprintf("(%s, %s)", coqStr(fname), coqStr(p.src(x))))
+					}
+					if id, ok := l.(*ast.Ident); ok && fname == "Builder.Build" && boundVar != "" &&
+						id.Name == boundVar && x.Pos() > boundEnd {
+						rebinds = append(rebinds, coqStr(p.src(x)))
+					}
+				}
+			case *ast.CallExpr:
+				if fname == "Builder.Build" {
+					if sel, ok := x.Fun.(*ast.SelectorExpr); ok && sel.Sel.Name == "buildNodes" {
+						arg := ""
+						if len(x.Args) > 0 {
+							arg = p.src(x.Args[0])
+						}
+						calls = append(calls, fmt.Sprintf("(%s, %s)", coqStr(path()), coqStr(arg)))
+					}
+				}
+			}
+			stack = append(stack, n)
+			return true
+		})
+	}
+	var items []string
+	for _, s := range sites {
+		items = append(items, fmt.Sprintf("(%s, %s, %s, %s)", coqStr(s.fn), coqStr(s.path), coqStr(s.bind), coqStr(s.built)))
+	}
+	fmt.Fprintf(b, "Definition memo_sites : list (string * string * string * string) :=\n  %s.\n\n", coqList(items))
+	fmt.Fprintf(b, "Definition built_stores : list (string * string) :=\n  %s.\n\n", coqList(stores))
+	fmt.Fprintf(b, "Definition build_nodes_calls : list (string * string) :=\n  %s.\n\n", coqList(calls))
+	fmt.Fprintf(b, "Definition build_ctx_rebinds : list string :=\n  %s.\n\n", coqList(rebinds))
+	// every assignment to a field of the Builder's env (function, field), and
+	// every store into a loader's "loaded" map (function, statement)
+	fmt.Fprintf(b, "Definition env_writes : list (string * string) :=\n  %s.\n\n", coqList(envWrites))
+	fmt.Fprintf(b, "Definition loaded_stores : list (string * string) :=\n  %s.\n\n", coqList(loadedStores))
+	for _, s := range []string{"Builder", "env", "buildOpts", "dockerOpts", "buildContext", "loader", "loadTracer", "buildCache"} {
+		fmt.Fprintf(b, "Definition layout_%s : list (string * string * string) :=\n  %s.\n\n",
+			s, coqList(p.structLayout(s)))
+	}
+	// package-level variables: (file, names, type, value)
+	var vars []string
+	for _, fn := range p.sortedFiles() {
+		for _, d := range p.files[fn].Decls {
+			gd, ok := d.(*ast.GenDecl)
+			if !ok || gd.Tok != token.VAR {
+				continue
+			}
+			for _, sp := range gd.Specs {
+				vs := sp.(*ast.ValueSpec)
+				var names []string
+				for _, n := range vs.Names {
+					names = append(names, n.Name)
+				}
+				typ := ""
+				if vs.Type != nil {
+					typ = p.src(vs.Type)
+				}
+				var vals []string
+				for _, v := range vs.Values {
+					vals = append(vals, p.src(v))
+				}
+				val := strings.Join(vals, ", ")
+				if len(val) > 60 {
+					val = val[:60]
+				}
+				vars = append(vars, fmt.Sprintf("(%s, %s, %s)", coqStr(strings.Join(names, ",")), coqStr(typ), coqStr(val)))
+			}
+		}
+	}
+	fmt.Fprintf(b, "Definition pkg_vars : list (string * string * string) :=\n  %s.\n", coqList(vars))
 }
